@@ -27,7 +27,12 @@ Notation zst := (cst Z).
 
 (* ---- observations ------------------------------------------------------------- *)
 
-Inductive rres := ROk (t : ztree) (links goeq : bool) | RErr | RCrash.
+(* RErr cls: an error was returned; cls = 1 roster id differs, 2 description without nodes,
+   3 a node on a non-member, 4 no roster given, 5 undecodable bytes / not a tree description /
+   any other message, 6 not the binary form, 7 roster member without key.
+   RBroken why: neither a result of the rebuild nor its refusal: 1 = the SENDER side failed
+   (Marshal / BinaryMarshaler returned an error), 2 = nil tree returned without an error. *)
+Inductive rres := ROk (t : ztree) (links goeq : bool) | RErr (cls : nat) | RCrash | RBroken (why : nat).
 Inductive dec (A : Type) := DSome (a : A) | DNone | DCrash.
 Arguments DSome {A} a.
 Arguments DNone {A}.
@@ -46,12 +51,13 @@ Record snap := mkSnap {
   sn_oc : outcome }.
 
 Inductive case :=
-| CRound (t : ztree) (ro : option zroster) (tm : tmarshal) (direct bytes binary : rres)
+| CRound (expect_wf : bool) (t : ztree) (ro : option zroster) (tm : tmarshal) (direct bytes binary : rres)
 | CMake (tm : tmarshal) (ro : option zroster) (obs : rres)
 | CBytes (d : dec tmarshal) (ro : option zroster) (obs : rres)
 | CBinary (d : dec (dec tmarshal * option zroster)) (obs : rres)
 | CProp (t : ztree) (views : list view)
-| CHist (ops : list zop) (snaps : list snap).
+| CHist (ops : list zop) (snaps : list snap)
+| CSetup (why : nat).      (* the implementation could not even produce the input: see clause 10 *)
 
 (* ---- decidable equalities --------------------------------------------------------- *)
 
@@ -128,12 +134,23 @@ Definition zfrom_bytes := from_bytes Z.add code_fixed_F06 code_fixed_N2.
 Definition goeq_model (s t : ztree) : bool :=
   match go_tree_equal s t with Ok b => b | _ => false end.
 
-Definition res_agrees (sender : option ztree) (m : res ztree) (o : rres) : bool :=
+(* which error the (repaired) code reports, in the order of its checks *)
+Definition make_err_class (m : tmarshal) (oro : option zroster) : nat :=
+  match oro with
+  | None => 4
+  | Some ro => if negb (r_id ro =? tm_rid m) then 1 else
+               match tm_children m with [] => 2 | _ => 3 end
+  end.
+
+Definition bytes_err_class (d : option tmarshal) (oro : option zroster) : nat :=
+  match d with None => 5 | Some m => make_err_class m oro end.
+
+Definition res_agrees (sender : option ztree) (cls : nat) (m : res ztree) (o : rres) : bool :=
   match m, o with
   | Ok t, ROk t' links goeq =>
       tree_eqb t t' && links &&
       match sender with Some s => Bool.eqb goeq (goeq_model s t) | None => true end
-  | Err, RErr => true
+  | Err, RErr c => c =? cls
   | Crash, RCrash => true
   | _, _ => false
   end.
@@ -219,22 +236,27 @@ Fixpoint replay (s : zst) (ops : list zop) (obs : list snap) : bool :=
 
 Definition agree (c : case) : bool :=
   match c with
-  | CRound t ro tm direct bytes binary =>
+  | CRound _ t ro tm direct bytes binary =>
       tm_eqb (to_marshal t) tm &&
-      res_agrees (Some t) (zmake tm ro) direct &&
-      res_agrees (Some t) (zfrom_bytes (Some tm) ro) bytes &&
-      res_agrees (Some t) (binary_unmarshal Z.add code_fixed_F06 code_fixed_N2 (Some (Some tm, t_ro t))) binary
-  | CMake tm ro obs => res_agrees None (zmake tm ro) obs
-  | CBytes d ro obs => res_agrees None (dec_tm d (fun m => zfrom_bytes m ro)) obs
+      res_agrees (Some t) (make_err_class tm ro) (zmake tm ro) direct &&
+      res_agrees (Some t) (make_err_class tm ro) (zfrom_bytes (Some tm) ro) bytes &&
+      res_agrees (Some t) (make_err_class tm (t_ro t))
+                 (binary_unmarshal Z.add code_fixed_F06 code_fixed_N2 (Some (Some tm, t_ro t))) binary
+  | CMake tm ro obs => res_agrees None (make_err_class tm ro) (zmake tm ro) obs
+  | CBytes d ro obs =>
+      res_agrees None (bytes_err_class (match d with DSome m => Some m | _ => None end) ro)
+                 (dec_tm d (fun m => zfrom_bytes m ro)) obs
   | CBinary d obs =>
-      res_agrees None
-        (match d with
-         | DSome (inner, oro) => dec_tm inner (fun m => zfrom_bytes m oro)
-         | DNone => Err
-         | DCrash => Crash
-         end) obs
+      match d with
+      | DSome (inner, oro) =>
+          res_agrees None (bytes_err_class (match inner with DSome m => Some m | _ => None end) oro)
+                     (dec_tm inner (fun m => zfrom_bytes m oro)) obs
+      | DNone => res_agrees None 6 Err obs
+      | DCrash => res_agrees None 0 Crash obs
+      end
   | CProp t views => forallb (view_agrees t) views
   | CHist ops snaps => replay init ops snaps
+  | CSetup _ => false
   end.
 
 Definition mismatches (l : list case) : list nat := mism_idx agree l.
@@ -307,9 +329,9 @@ Definition check_make (m : option tmarshal) (oro : option zroster) (obs : rres) 
   | None => []                                        (* a nil roster is the caller's error *)
   | Some ro =>
       match m with
-      | None => clause 2 (match obs with RErr => true | _ => false end)
+      | None => clause 2 (match obs with RErr _ => true | _ => false end)
       | Some m =>
-          if malformed m ro then clause 2 (match obs with RErr => true | _ => false end)
+          if malformed m ro then clause 2 (match obs with RErr _ => true | _ => false end)
           else clause 3 (match obs with ROk t links _ => links && describes m ro t | _ => false end)
       end
   end.
@@ -375,7 +397,7 @@ Definition check_step (aw : list nat) (p : option snap) (o : zop) (n : snap) : l
   | PResponseTree (Some m) (Some ro) =>
       if malformed m ro || (tm_tid m =? 0)
       then clause 6 (outcome_eqb (sn_oc n) Fine && unchanged_all p n)
-      else if is_requested (prev_store p (tm_tid m))
+      else if is_requested (prev_store p (tm_tid m)) || mem (tm_tid m) aw
            then clause 7 (outcome_eqb (sn_oc n) Fine && stored_describes n m ro)
            else []
   | PResponseTree _ _ => clause 6 (outcome_eqb (sn_oc n) Fine && unchanged_all p n)
@@ -412,10 +434,17 @@ Fixpoint check_hist (aw : list nat) (p : option snap) (ops : list zop) (snaps : 
    6 a malformed or mismatching description was stored or crashed the handler
    7 a requested tree, correctly described, was not stored as described
    9 a peer message stored a tree under an id that was marked requested although no request
-     for it had been sent (the send failed: the server is asking nobody) *)
+     for it had been sent (the send failed: the server is asking nobody)
+   10 the implementation did not produce the input of the case at all: a generator / NewTree
+     gave no tree or a tree that is not well-formed where the construction demands one,
+     MakeTreeMarshal panicked, Marshal / BinaryMarshaler failed, or a rebuild returned nil
+     without an error *)
+Definition broken (o : rres) : bool := match o with RBroken _ => true | _ => false end.
+
 Definition check (c : case) : list nat :=
   match c with
-  | CRound t ro tm direct bytes binary =>
+  | CRound expect_wf t ro tm direct bytes binary =>
+      clause 10 ((negb expect_wf || sender_wf t) && negb (broken direct || broken bytes || broken binary)) ++
       let own := match t_ro t, ro with Some a, Some b => roster_eqb a b | _, _ => false end in
       (if sender_wf t then
          clause 1 ((negb own || (same_tree t direct && same_tree t bytes)) && same_tree t binary)
@@ -424,19 +453,21 @@ Definition check (c : case) : list nat :=
          check_make (Some tm) ro direct ++ check_make (Some tm) ro bytes) ++
       (* a serialised form that lacks its roster must be refused, not dereferenced *)
       match t_ro t with
-      | None => clause 2 (match binary with RErr => true | _ => false end)
+      | None => clause 2 (match binary with RErr _ => true | _ => false end)
       | Some _ => []
       end
-  | CMake tm ro obs => check_make (Some tm) ro obs
+  | CMake tm ro obs => clause 10 (negb (broken obs)) ++ check_make (Some tm) ro obs
   | CBytes d ro obs =>
+      clause 10 (negb (broken obs)) ++
       match d with
       | DSome m => check_make (Some m) ro obs
-      | _ => match ro with Some _ => clause 2 (match obs with RErr => true | _ => false end) | None => [] end
+      | _ => match ro with Some _ => clause 2 (match obs with RErr _ => true | _ => false end) | None => [] end
       end
   | CBinary d obs =>
+      clause 10 (negb (broken obs)) ++
       match d with
       | DSome (DSome m, Some ro) => check_make (Some m) (Some ro) obs
-      | _ => clause 2 (match obs with RErr => true | _ => false end)
+      | _ => clause 2 (match obs with RErr _ => true | _ => false end)
       end
   | CProp t views =>
       if sender_wf t then
@@ -446,8 +477,9 @@ Definition check (c : case) : list nat :=
                                         list_eqb Nat.eqb (list_ids (t_root t)) ids
                                     | _ => false
                                     end) views)
-      else []
+      else [10]                     (* propagation senders are always built by NewTree *)
   | CHist ops snaps => check_hist [] None ops snaps
+  | CSetup _ => [10]
   end.
 
 Definition violations (l : list case) : list (nat * nat) := viols check l.
